@@ -931,6 +931,11 @@ class Exec:
                 return st.alloc(self.c, self.c.fresh_array(name, cell.shape, cell.kind))
         if isinstance(v, tuple):
             return tuple(self.fresh_like(x, name, st) for x in v)
+        if isinstance(v, Ref) and isinstance(st.heap.get(v.id), (PyList, PyDict)):
+            # a list / dictionary bound before the loop and rebound inside it (typically a temporary that every iteration assigns
+            # before it uses it): no abstraction of its value at an arbitrary iteration -- any READ of it before it is assigned
+            # again makes the unit unsupported, an assignment simply replaces the marker
+            return _Undef('was a %s before the loop' % type(st.heap[v.id]).__name__)
         raise Unsupported('cannot havoc %s = %r' % (name, v))
 
     # ------------------------------------------------------------------ generators (DESIGN 2.8)
@@ -1083,7 +1088,10 @@ class Exec:
     def ev_Name(self, node, st):
         n = node.id
         if n in st.env:
-            return st.env[n]
+            v = st.env[n]
+            if isinstance(v, _Undef):
+                raise Unsupported('reads %s, a variable rebound inside a loop whose value there could not be abstracted (%s)' % (n, v.why))
+            return v
         if n in self.fn_imports:
             return self.import_value(self.fn_imports[n])
         if n in self.mi.functions or n in self.mi.aliases:
@@ -1789,6 +1797,20 @@ class Exec:
                     r = z3.If(i == j, as_term(items[j]) if kind == 'int' else to_real(items[j]), r)
                 return r
             return Arr((len(items),), el, kind)
+        rows = [st.get(x) if isinstance(x, Ref) else None for x in items]
+        if rows and all(isinstance(r, Arr) and r.ndim == 1 for r in rows) and all(_same(r.shape[0], rows[0].shape[0]) for r in rows[1:]):
+            # np.array([row_0, row_1, ...]) of 1-D arrays of (syntactically) one length: the 2-D stack of the rows
+            kind = 'int' if all(r.kind == 'int' for r in rows) else 'real'
+
+            def el2(ix, rows=rows):
+                ci = conc_int(ix[0])
+                if ci is not None:
+                    return rows[ci].elem((ix[1],))
+                r = rows[-1].elem((ix[1],))
+                for j in range(len(rows) - 2, -1, -1):
+                    r = z3.If(to_int(ix[0]) == j, rows[j].elem((ix[1],)), r)
+                return r
+            return Arr((len(rows), rows[0].shape[0]), el2, kind)
         raise Unsupported('list of non-scalars as array')
 
     # ---- subscripts
@@ -2590,6 +2612,13 @@ def _plain_const(v):
     if isinstance(v, tuple):
         return all(_plain_const(x) for x in v)
     return isinstance(v, (int, float, str, bool, type(None)))
+
+
+class _Undef:
+    """marker for a local variable whose value at loop entry has no abstraction (see fresh_like)"""
+
+    def __init__(self, why):
+        self.why = why
 
 
 class _Raise(Exception):
